@@ -128,7 +128,8 @@ type GroupNode struct {
 	Ns     string       `json:"ns,omitempty"`
 	EnvNs  string       `json:"envNs,omitempty"`
 	Hidden bool         `json:"hidden,omitempty"`
-	Ptr    bool         `json:"ptr,omitempty"` // nested group declared as *struct
+	Ptr    bool         `json:"ptr,omitempty"`  // nested group declared as *struct
+	Late   bool         `json:"late,omitempty"` // a top-level group of the parser that a scenario with lateGroup adds (AddGroup) only after its first ParseArgs
 	Opts   []*OptNode   `json:"opts,omitempty"`
 	Groups []*GroupNode `json:"groups,omitempty"`
 
@@ -156,7 +157,7 @@ type CmdNode struct {
 	Own      *GroupNode   `json:"own,omitempty"`   // options / nested groups of the command's own struct (tag, prog)
 	Extra    []*GroupNode `json:"extra,omitempty"` // groups added with AddGroup
 	Args     []*ArgNode   `json:"args,omitempty"`
-	ArgsReq  bool         `json:"argsReq,omitempty"` // required tag on the positional-args struct
+	ArgsReq  bool         `json:"argsReq,omitempty"`  // required tag on the positional-args struct
 	ArgSplit int          `json:"argSplit,omitempty"` // > 0: the positionals are declared in two positional-args structs, this many in the first
 	Cmds     []*CmdNode   `json:"cmds,omitempty"`
 
@@ -181,6 +182,7 @@ type FOpt struct {
 	Kind      string `json:"kind"`
 	VType     string `json:"vtype"`
 	KType     string `json:"ktype"`
+	Late      bool   `json:"late"`
 	Param     string `json:"param"`
 	Base      int    `json:"base"`
 	Optional  bool   `json:"optional"`
@@ -386,6 +388,7 @@ func Flatten(t *Tree) *Decl {
 		d.Groups = append(d.Groups, FGroup{Cmd: ci, Parent: parentOwn, Desc: toS(c.Desc), Own: true, Hidden: c.Hidden})
 		ownIdx := len(d.Groups)
 		own.idx = ownIdx
+		late := false
 		var walkGroup func(g *GroupNode, gi int)
 		walkGroup = func(g *GroupNode, gi int) {
 			for _, o := range g.Opts {
@@ -394,7 +397,7 @@ func Flatten(t *Tree) *Decl {
 					Defaults: toSs(o.Defaults), Env: toS(o.Env), EnvDelim: toS(o.EnvDelim), Choices: toSs(o.Choices),
 					Hidden: o.Hidden, Unquote: !o.NoUnquote, IniName: toS(o.IniName), NoIni: o.NoIni,
 					ValueName: toS(o.ValueName), Desc: toS(o.Desc), Mask: toS(o.Mask), Init: initAtoms(o), FailOn: []S{},
-					Validator: o.Validator}
+					Validator: o.Validator, Late: late}
 				if o.FailOn != nil {
 					fo.FailOn = []S{toS(*o.FailOn)}
 				}
@@ -413,7 +416,9 @@ func Flatten(t *Tree) *Decl {
 		for _, g := range c.Extra {
 			d.Groups = append(d.Groups, FGroup{Cmd: ci, Parent: ownIdx, Desc: toS(g.Desc), Ns: toS(g.Ns), EnvNs: toS(g.EnvNs), Hidden: g.Hidden})
 			g.idx = len(d.Groups)
+			late = g.Late && ci == 1
 			walkGroup(g, g.idx)
+			late = false
 		}
 		for _, sc := range c.Cmds {
 			walkCmd(sc, ci, ownIdx)
